@@ -326,7 +326,14 @@ class Gen:
                 i = r.choice((w, -w - 1))
             return ["d_idx", e, i]
         if c == 8:
-            return ["d_slice", e, r.randrange(-w - 2, w + 3), r.randrange(-w - 2, w + 3)]
+            a, b = r.randrange(-w - 2, w + 3), r.randrange(-w - 2, w + 3)
+            # value[a:b] with normalised a > b raises IndexError; such a sub-term must not hide inside an operator that
+            # drops its operand (empty stepped slice, matches() without patterns), so only the malformed stream keeps it
+            if _norm_index(w, a) > _norm_index(w, b) and not self.malformed:
+                a, b = b, a
+                if _norm_index(w, a) > _norm_index(w, b):
+                    a, b = 0, w
+            return ["d_slice", e, a, b]
         if c == 9:
             a, b = r.randrange(-w - 1, w + 2), r.randrange(-w - 1, w + 2)
             st = r.choice((-3, -2, -1, 2, 3))
